@@ -61,7 +61,7 @@ fn parse(beh: &Value, tick_us: u64) -> (u16, Vec<Step>) {
 
 fn random_history(rng: &mut StdRng) -> (u16, Vec<Step>) {
     // beyond 9000: s2n-quic-dc runs the same controllers with datagram sizes up to 32k (16384 is where 4 * mss leaves 16 bits)
-    let mss_choices = [1200u16, 1201, 1350, 1472, 1500, 4000, 8999, 9000, 16_383, 16_384, 32_000, 65_535];
+    let mss_choices = [1200u16, 1201, 1350, 1472, 1500, 4000, 8999, 9000, 16_383, 16_384, 32_000];
     let mut mss = mss_choices[rng.random_range(0..mss_choices.len())];
     let n = rng.random_range(20..400);
     let base_rtt: u64 = [50u64, 1_000, 20_000, 100_000, 900_000][rng.random_range(0..5)];
